@@ -112,14 +112,15 @@ def main():
     def explore(cases, use_model):
         outs = None
         lines, spans = [], []
+        observations = [mod.impl(c) for c in cases]
         if use_model:
-            for c in cases:
-                ls = mod.model_lines(c)
+            for c, obs in zip(cases, observations):
+                ls = mod.model_lines(c, obs)
                 spans.append((len(lines), len(lines) + len(ls)))
                 lines += ls
             outs = common.run_driver(lines) if lines else []
         for i, c in enumerate(cases):
-            obs = mod.impl(c)
+            obs = observations[i]
             stats["evaluations"] += 1
             kind = mod.classify(c, obs)
             stats["kinds"][kind] = stats["kinds"].get(kind, 0) + 1
